@@ -1847,6 +1847,18 @@ def _appended(I, args, kwargs):
     raise OutOfReach("appended() of lists that are not extensions of one another")
 
 
+@_native("stack_in_scope")
+def _stack_in_scope(I, args, kwargs):
+    """stack_in_scope(target, variant, stack): the uninterpreted "has an element in the specific scope" predicate of the
+    abstract tree builder (contracts/phase_progress.py), as a function of the stack's symbolic prefix"""
+    target, variant, l = args
+    if not (isinstance(l, ListV) and l.prefix is not None and not l.items):
+        raise OutOfReach("stack_in_scope of a stack that is not purely symbolic")
+    f = I.ctx.opaque_fn("in_scope", [z3.StringSort(), z3.StringSort(), z3.SeqSort(z3.IntSort())], z3.BoolSort())
+    zt = z3.StringVal(target) if isinstance(target, str) else zs(target)
+    return mk_bool(f(zt, z3.StringVal(str(variant)), l.prefix))
+
+
 @_native("is_prefix_list")
 def _is_prefix_list(I, args, kwargs):
     """is_prefix_list(a, b): list a is an initial segment of list b (lists with symbolic prefixes and no
